@@ -21,6 +21,13 @@ func init() {
 		id := id
 		Replayers[id+"/handler"] = func(rp *eng.Replay) (bool, string) { return replayHandler(id, rp) }
 	}
+	Replayers["C10"] = func(rp *eng.Replay) (bool, string) {
+		switch rp.Engine {
+		case "scale", "watchdog":
+			return false, "scale / watchdog findings are re-checked by running ./check C10 (subprocess)"
+		}
+		return replayHostile(rp)
+	}
 }
 
 // hcall is one observed handler invocation.
